@@ -87,6 +87,24 @@ fn run(name: &str, a: i128, b: i128) -> String {
         "wrapping_shl131" => { let v = t_wrapping_shl131(a, b); format!("I {}", v) }
         "pow2" => { let v = t_pow2(a, b); format!("I {}", v) }
         "checked_pow" => { let v = t_checked_pow(a, b); match v { Some(x) => format!("S {}", x), None => "N".to_string() } }
+        "f64_gt" => { let v = t_f64_gt(a, b); format!("B {}", v as u8) }
+        "f64_le" => { let v = t_f64_le(a, b); format!("B {}", v as u8) }
+        "f64_eq" => { let v = t_f64_eq(a, b); format!("B {}", v as u8) }
+        "f64_ne" => { let v = t_f64_ne(a, b); format!("B {}", v as u8) }
+        "f64_lt" => { let v = t_f64_lt(a, b); format!("B {}", v as u8) }
+        "f32_gt" => { let v = t_f32_gt(a, b); format!("B {}", v as u8) }
+        "f32_ge" => { let v = t_f32_ge(a, b); format!("B {}", v as u8) }
+        "f64_to_i128" => { let v = t_f64_to_i128(a, b); format!("I {}", v) }
+        "f64_to_u8" => { let v = t_f64_to_u8(a, b); format!("I {}", v) }
+        "f32_to_i128" => { let v = t_f32_to_i128(a, b); format!("I {}", v) }
+        "f64_to_i64" => { let v = t_f64_to_i64(a, b); format!("I {}", v) }
+        "i128_to_f64" => { let v = t_i128_to_f64(a, b); format!("I {}", v) }
+        "i128_to_f32" => { let v = t_i128_to_f32(a, b); format!("I {}", v) }
+        "u64_to_f64" => { let v = t_u64_to_f64(a, b); format!("I {}", v) }
+        "f64_is_nan" => { let v = t_f64_is_nan(a, b); format!("B {}", v as u8) }
+        "f64_is_inf" => { let v = t_f64_is_inf(a, b); format!("B {}", v as u8) }
+        "f64_gt_max" => { let v = t_f64_gt_max(a, b); format!("B {}", v as u8) }
+        "f64_lt_min" => { let v = t_f64_lt_min(a, b); format!("B {}", v as u8) }
         _ => "BADNAME".to_string(),
     }
 }
